@@ -498,7 +498,13 @@ def run(ctx):
                 # the object is pickled while no other thread of this storage can be in the middle of a replay: apply_logs
                 # advances the cursor before it applies a record, so a snapshot taken then claims a record it does not contain
                 from sa.util import class_lock_fields, lock_section_of
-                held = lock_section_of(c, parent_map(f2.node), class_lock_fields(jcls)) is not None
+                locks6 = class_lock_fields(jcls)
+                held = lock_section_of(c, parent_map(f2.node), locks6) is not None
+                if not held and m.startswith("_"):
+                    # a private helper: held on entry when every call site in the class is inside the lock
+                    sites = [(mm, x) for mm in jcls.methods.values() for x in own_nodes(mm.node)
+                             if isinstance(x, ast.Call) and self_attr(x.func) == m]
+                    held = bool(sites) and all(lock_section_of(x, parent_map(mm.node), locks6) is not None for mm, x in sites)
                 ctx.check(held, "R06.5", f2.short, "snapshot-under-thread-lock",
                           message=f"{m} pickles the replay result outside the storage's thread lock: another thread can be between `log_number_read += 1` and the "
                                   f"record's effect, the snapshot then says N+1 records read without record N - every worker restored from it misses that record for ever",
